@@ -136,6 +136,7 @@ class World:
         self.commentary_num = commentary_num
         self.commentary_fn = commentary_fn
         self.unknown_door = None      # player whose third-street up-card is dealt unknown (set by a check before play)
+        self.unknown_burns = False    # half of the burns are dealt as "??" (set by a check before play)
         self.free_showdown_num = free_showdown_num
         self.force_show = force_show
         if adopt is not None:
@@ -198,6 +199,9 @@ class World:
         """Dealer's argument for a k-card deal: None / int count / explicit card string."""
         mode = self.dealer
         st = self.state
+        if kind == 'burn' and self.unknown_burns and self.ch.chance('dealer.unknown_burn', 1, 2):
+            self.ctx.fault('hidden_cards')
+            return '??'             # a burn nobody saw (burns are never read again)
         if kind == 'hole' and self.unknown_door == player_index and st.street_index == 0:
             # "unknown door card": this player's exposed third-street card is dealt as "??" (an observer who missed it); he
             # then folds at his first decision, because from fourth street on nobody can open a round against an unknown
